@@ -54,7 +54,8 @@ def relevant(hyps, goal, depth=2):
     return [h for i, (h, _) in enumerate(hs) if i in keep]
 
 
-def verify(qual, timeout_ms=20000, verbose=False):
+def verify(qual, timeout_ms=20000, verbose=False, part=None):
+    """part=(k, n): discharge only the obligation groups with index % n == k (parallel slices)"""
     c = REGISTRY[qual]
     out = {'qual': qual, 'obligations': [], 'status': 'ok', 'assumptions': [], 'sha256': None}
     t0 = time.time()
@@ -82,7 +83,9 @@ def verify(qual, timeout_ms=20000, verbose=False):
     groups = {}
     for o in obls:
         groups.setdefault(o.name, []).append(o)
-    for name, os_ in groups.items():
+    for gi, (name, os_) in enumerate(groups.items()):
+        if part is not None and gi % part[1] != part[0]:
+            continue
         verdict, secs, why, model = 'proved', 0.0, '', None
         for o in os_:
             if z3.is_true(z3.simplify(o.goal)):
